@@ -437,19 +437,21 @@ def cases(tier, seed, part, nparts):
                 if i % nparts == part:
                     yield dict(kind="samples", hw=hwi, pattern=r.row)
         # (T) completion checks
-        for t in (trees(rules, neg, 2, 3) if tier == "quick" else trees(rules, neg, 3, 2)):
+        for t in (trees(rules, neg, 2, 2) if tier == "quick" else trees(rules, neg, 2, 3) + [x for x in trees(rules, neg, 3, 1) if len(x) == 3]):
             i += 1
             if i % nparts == part:
                 yield dict(kind="tree", hw=hwi, t=t)
         # (P) patch checks on all pairs of the small family
         fam = trees(rules, neg, 1, 1 if tier == "quick" else 3)
-        for t in fam:
-            for u in fam:
+        for a, t in enumerate(fam):
+            for b, u in enumerate(fam):
+                if tier == "quick" and (a > b) == ((a + b) % 2 == 0) and a != b:
+                    continue    # quick: every unordered pair once, the direction alternating with the parity of a+b
                 i += 1
                 if i % nparts == part:
                     yield dict(kind="pair", hw=hwi, t=t, u=u)
         # (R) random bigger trees and edits
-        for j in range(600 if tier == "quick" else 5000):
+        for j in range(250 if tier == "quick" else 5000):
             i += 1
             if i % nparts == part:
                 rng = random.Random("%s/%d/%d" % (seed, hwi, j))
@@ -531,17 +533,17 @@ def run(tier="quick", seed=0, part=0, nparts=1):
             per_key[key] = per_key.get(key, 0) + 1
             if per_key[key] <= 3:
                 failures.append(dict(key=key, text=text, case=jcase, expected=exp, actual=act))
-    tt = "<= 2 root rows x <= 3 rows per block" if tier == "quick" else "<= 3 root rows x <= 2 rows per block"
+    tt = "<= 2 root rows x <= 2 rows per block" if tier == "quick" else "<= 2 root rows x <= 3 rows per block, and 3 root rows x <= 1 row per block"
     pp = 1 if tier == "quick" else 3
     return dict(evaluations=ev, nontrivial=sorted(nontrivial), failures=failures, samples=samples,
                 rule="18 hardware models covering every branch of _implicit_tree (Huawei CE/NE/Quidway/plain, Arista, Nexus 5596/3432/9508 with "
                      "and without tag spine1/9316/N9K-C9364C/3132, Catalyst 2960/3560/3650/3750, plain Cisco, ASR). Trees over the words of "
                      "the rules: per default row {the row, its negation, the same command with another value, the row + one more word} (mutually exclusive), per block "
                      "pattern up to 3 matching sample names + 1 look-alike that does not match, `description x` under blocks. (T) completion "
-                     "checks on all trees with %s; (P) patch checks on all pairs (t,u) of trees with <= 1 root row and <= %d rows per block; "
+                     "checks on all trees with %s; (P) patch checks on all pairs (t,u) of trees with <= 1 root row and <= %d rows per block%s; "
                      "(R) seeded random trees (<= 5 root rows) with u = random edit of t, completion + patch checks. non-trivial = some "
                      "applicable default is suppressed by an explicit row or added under an explicit block (pairs: and t != u); distinct by "
-                     "(hw, t, u)" % (tt, pp),
+                     "(hw, t, u)" % (tt, pp, " (quick: each unordered pair once, direction alternating)" if tier == "quick" else ""),
                 bound="%s (completion); all pairs of trees with <= 1 root row x <= %d rows per block (patch); random beyond" % (tt, pp))
 
 
